@@ -164,20 +164,24 @@ func msgSpaces(r *Run) []space {
 				f0 = append(f0, c)
 			}
 		}
+		// (the single long paths last: if distinct suspended states do not merge - e.g. after a refactoring that adds a
+		// per-call counter to the state - they are the ones that use up the budget)
 		sp := []space{
-			ltok, lchain, sub1,
-			{name: "msg/long", gen: unionTrie{longs}, cfgs: f0, finalFlags: noMore, beyondErr: 1, beyondOk: 1, split: 1},
 			{name: "msg/trie<=1hdr", gen: msgTrie{strs(fl), strs(hm), 1, strs(blankMenu), strs(bodyMenu)}, cfgs: full, finalFlags: noMore, beyondErr: 1, beyondOk: 1, split: 2},
 			{name: "msg/trie<=2hdr", gen: msgTrie{strs(fl[:2]), strs(hdrLineMenuQuick), 2, strs(blankMenu[:2]), strs(bodyMenu)}, cfgs: red, finalFlags: noMore, beyondErr: 1, beyondOk: 1, split: 2},
+			sub1,
+			{name: "msg/long", gen: unionTrie{longs}, cfgs: f0, finalFlags: noMore, beyondErr: 1, beyondOk: 1, split: 1},
+			lchain, ltok,
 		}
 		return sp
 	}
 	return []space{
-		ltok, lchain, sub1,
+		sub1,
 		{name: "msg/long", gen: unionTrie{longs}, cfgs: full, finalFlags: noMore, beyondErr: 1, beyondOk: 1, split: 1},
 		{name: "msg/trie<=1hdr", gen: msgTrie{strs(fl), strs(hm), 1, strs(blankMenu), strs(bodyMenu)}, cfgs: full, finalFlags: noMore, beyondErr: 1, beyondOk: 1, split: 2},
 		{name: "msg/trie<=2hdr", gen: msgTrie{strs(fl[:5]), strs(hm), 2, strs(blankMenu), strs(bodyMenu)}, cfgs: red, finalFlags: noMore, beyondErr: 1, beyondOk: 1, split: 2},
 		{name: "msg/trie<=3hdr", gen: msgTrie{strs(fl[:2]), strs(hdrLineMenuQuick[:12]), 3, strs(blankMenu[:1]), strs(bodyMenu)}, cfgs: red, finalFlags: noMore, beyondErr: 1, beyondOk: 1, split: 2},
+		lchain, ltok,
 	}
 }
 
